@@ -3,6 +3,7 @@
 import json, subprocess, sys, os
 
 REPO_HOOK_COMMITS = ["51ce9be"]
+# fix: commits in /repo (recorded in known_findings.jsonl): 50eaa9d 8c5e8ca 1ad039d a2fd658 3207f58 09c2b15 3b0dfee 8c772ad 5c48cf6
 
 ENV = "export GOFLAGS=-mod=mod GOPROXY=off GOSUMDB=off GOTOOLCHAIN=local; "
 
@@ -11,15 +12,15 @@ S = "runtime monitoring, Engine S: "
 G = "runtime monitoring, Engine G: "
 T = "runtime monitoring, Engine T: "
 CHECKS = {
- "C01": ("sched+gen", S+"start/end stamps from one atomic clock inside harness job bodies, checked after quiescence against the scenario's dependency lists, with seeded perturbation at verif hook points; " + G + "stub call log vs. the abstract program's dependencies (providers, predicates, element calls of End hooks) on freshly generated code",
+ "C01": ("sched+gen", S+"start/end stamps from one atomic clock inside harness job bodies, checked after quiescence against the scenario's dependency lists, with seeded perturbation at verif hook points, plus an online shadow scheduler fed by the loop's hook events (a job is handed to a worker once, only when every dependency has a result); " + G + "stub call log vs. the abstract program's dependencies (providers, predicates, element calls of End hooks) on freshly generated code",
          "Held on every observed execution: a dependent never started before its dependency ended ok, no job/function ran twice; scheduler scenarios (DAGs with duplicate deps, late enqueue, both modes, N=1..64) and generated flows/parallels.",
          "Trusted: harness bodies/stubs and their clock; the Go runtime. Interleavings reached = OS scheduling + hook perturbation + stub delays.", "3/C01"),
- "C02": ("gen", G+"provenance-hash tokens through freshly generated flow code, compared call by call (arguments, multiplicity, Results) with a reference interpreter written from the statement; each abstract flow printed in 3 listing/option orders",
+ "C02": ("gen", G+"provenance-hash tokens through freshly generated flow code, compared call by call (arguments, multiplicity, Results) with a reference interpreter written from the statement; each abstract flow printed in 3 listing/option orders; 4/8/32 simultaneous executions of the same directive from as many goroutines, each judged on its own",
          "Held on every observed execution of every generated flow (all spellings/value-type kinds of the grammar, concurrency default..64, delays).",
-         "Programs outside the generator's grammar are not reached; re-entrancy is exercised only through independent sequential executions (concurrent executions: see DESIGN limits).", "3/C02"),
+         "Programs outside the generator's grammar are not reached; simultaneous executions only for programs whose functions can all find their execution without a global (ctx parameter, captured handle or a non-zero input token).", "3/C02"),
  "C03": ("sched+gen", S+"exact in-flight counter in job bodies, goroutine census from runtime.Stack while N bodies are held on a gate, N-party barrier after Goexit jobs decided by the stuck-state detector; " + G + "in-flight counter in stubs vs. the directive's limit",
          "In-flight high-water mark <= limit in every execution; scheduler goroutines <= N+2 with up to 10^5 jobs; N-party barrier completes after 0/1/N/3N Goexit jobs.",
-         "Census is one sample per wide scenario, made decisive by holding every running body on the gate.", "3/C03"),
+         "Census is one sample per wide scenario, made decisive by holding every running body on the gate. Generated level: wide programs (6..25 independent functions, mostly without cff.Concurrency) held until the limit is saturated plus 3 ms.", "3/C03"),
  "C04": ("gen", G+"every execution runs under recover() in a child process whose death is attributed to its last case; returned error inspected with errors.As(*cff.PanicError) and Value compared with the value observed at the panicking stub",
          "No panic escaped and no child died over all executions in which stubs panicked (6 kinds of values, every function role); returned errors matched observed failures.",
          "panic(nil) excluded (statement says non-nil).", "3/C04"),
@@ -48,12 +49,12 @@ CHECKS = {
          "No race report over the observed executions; the detector generalises each execution by happens-before.",
          "Harness is written to add no happens-before edges of its own in quiet mode.", "3/C12"),
  "C13": ("tool", T+"the cff binary built from the working tree run as a child process per package over Engine G programs, static multi-directive files and hazard templates in base/source-map x auto-instrument; oracle: no Go panic, positioned diagnostic on failure, outputs parse, package type-checks without the tag, AST scan for residual directives",
-         "Held on all explored inputs except the recorded known findings F4, F5, F10, F11 (identifier/package shadowing and nested directives); F2, F3, F6, F7 were found and fixed.",
+         "Held on all explored inputs except the recorded known findings F4, F5, F10, F11 (identifier/package shadowing and nested directives); F2, F3, F6, F7, F14 were found and fixed.",
          "Known findings are keyed by (spelling feature, compiler message); a different failure is still reported.", "3/C13"),
  "C14": ("tool", T+"random well-formed flows and every applicable single-defect mutation (12 kinds), each its own package; Slice/Map element/key/value type pairs over an 11-type lattice with the expected verdict computed by go/types.AssignableTo; observed: exit status, diagnostic naming the file, presence of *_gen.go",
          "Every explored ill-formed directive rejected, every well-formed one accepted. Found F8 and F13 (fixed).",
          "Each mutation introduces exactly one named defect by construction.", "3/C14"),
- "C15": ("gen", G+"every argument expression of generated programs wrapped in a logging identity function (site, goroutine id, stamp): exactly once, in source order, on the caller's goroutine, before the first stub call; user variables named like generated identifiers carry the Params values",
+ "C15": ("gen", G+"every argument expression of generated programs wrapped in a logging identity function (site, goroutine id, stamp): exactly once, in source order, on the caller's goroutine, before the first stub call; 'bare' programs pass every argument as a plain local variable that is overwritten with a recognisable replacement when the first user function is entered (any replacement seen later = late evaluation); user variables named like generated identifiers carry the Params values",
          "Held on every observed execution. Found F9 (fixed).",
          "cff.Invoke's argument must be constant and is not wrapped.", "3/C15"),
  "C16": ("tool", T+"(b) build constraints over {cff,a,b} (exhaustive to a nesting depth, sampled deeper; go:build, +build, both) with truth tables via go/build/constraint for all 8 assignments; (a) structural AST comparison of source and output with directive sites masked; (c) SHA-256 snapshot of the module before/after with random -file selections",
@@ -62,12 +63,12 @@ CHECKS = {
  "C17": ("tool", T+"byte comparison of every output across fresh cff processes (base and source-map), against -file singleton/subset runs, and after adding in-package and external test files",
          "All outputs byte-identical over the explored corpus.",
          "File order inside a package is fixed by go list.", "3/C17"),
- "C18": ("gen", G+"recording cff.Emitter implementations (1..3 WithEmitter options, nested EmitterStack) on instrumented generated programs; per execution and per invocation event counts, payload identity, ordering, and equality of what every stacked emitter received",
+ "C18": ("gen+emit", G+"recording cff.Emitter implementations (1..3 WithEmitter options, nested EmitterStack) on instrumented generated programs; Engine E: cff.EmitterStack/NopEmitter driven at their API over forests of shared, nested and repeatedly extended stacks, per emitter and per stack exact event sequence and payload identity; per execution and per invocation event counts, payload identity, ordering, and equality of what every stacked emitter received",
          "Held on every observed execution.",
          "Under -auto-instrument only bounds are judged (the statement does not fix which tasks cff instruments or their names).", "3/C18"),
- "C19": ("sched", S+"recording scheduler.Emitter at StateFlushFrequency=1ns, every report checked against the stated equations and harness-side submission counters; generated-level emitters check the same equations on cff.SchedulerState",
+ "C19": ("sched+gen", S+"recording scheduler.Emitter at StateFlushFrequency=1ns, every report checked against the stated equations and harness-side submission counters, and compared field by field with an online shadow scheduler fed by the loop's hook events; " + G + "cff.SchedulerEmitter through generated code at the default flush interval: a function is held until the first report, which lingers in EmitScheduler; counts, Concurrency = the directive's limit, no report in delivery after a nil return",
          "Every one of the (10^5..10^7) reports per run satisfied the stated relations; found F1 (executing > Concurrency) on the pinned tree, fixed.",
-         "Counters read inside Emit are conservative upper bounds.", "3/C19"),
+         "Counters read inside Emit are conservative upper bounds; the shadow model is exact because loop events and Emit happen on the loop goroutine.", "3/C19"),
 }
 
 CHECKS["C20"] = ("tool+gen", T+"(a) every accepted file generated in base and source-map mode, outputs parsed without comments and compared structurally; " + G + "(b) flows restricted to Params/Results/Concurrency/plain Tasks generated in modifier and base mode, executed under identical scenarios (ok/error/panic per task) against the same reference interpreter",
@@ -104,8 +105,10 @@ def main():
         "engines": [
             {"name": "sched", "path": "/verif/sched", "serves_properties": ["C01","C03","C05","C06","C07","C08","C09","C12","C19"],
              "kind_free_text": "scheduler package under generated scenario stress; boundary monitors in job bodies, Enqueue/Wait, state emitter; verif hooks for perturbation"},
-            {"name": "gen", "path": "/verif/g", "serves_properties": ["C01","C02","C03","C04","C05","C06","C07","C08","C09","C10","C11","C12","C15","C18","C20"],
+            {"name": "gen", "path": "/verif/g", "serves_properties": ["C01","C02","C03","C04","C05","C06","C07","C08","C09","C10","C11","C12","C15","C18","C19","C20"],
              "kind_free_text": "abstract programs printed as cff-tagged packages, compiled by the cff binary built from the working tree, executed under scenarios against a reference interpreter (prog), runtime support (rt), runner (grun)"},
+            {"name": "emit", "path": "/verif/cmd/emith", "serves_properties": ["C18"],
+             "kind_free_text": "cff.EmitterStack / cff.NopEmitter observed at their API with recording emitters"},
             {"name": "tool", "path": "/verif/cmd/vcheck", "serves_properties": ["C13","C14","C16","C17","C20"],
              "kind_free_text": "the cff binary as observed system: exit status, stderr, files written, bytes/AST/type-check of outputs"},
         ],
